@@ -70,7 +70,7 @@ def analyse(ctx, replace=None, only=None):
     vtable(R, fns)
     track_untrack(R, fns)
     locks(R, fns)
-    level(R, fns)
+    level(R, fns, P)
     dump(R, fns)
     dispatch(R, P)
     frames(R, fns)
@@ -280,7 +280,7 @@ def vtable(R, fns):
             init = f.aliases().get(pv["n"])
             res_ok = init is not None and f.d(init) is u.node or any(e.kind == "decl" and any(v["n"] == pv["n"] and v.get("init") and f.d(v["init"]) is u.node for v in e.node["vars"]) for e in f.all_events())
         R.check(res_ok, "VTABLE", "%s:tracks-returned-pointer" % name, where(f, t), "the pointer tracked is the one the wrapped allocator returned")
-        sz = f.show(RU.arg(f, t.node, 2))
+        sz = f.show(RU.arg(f, t.node, 2), alias=True)
         R.check(sz == size_expr, "VTABLE", "%s:tracks-requested-size" % name, where(f, t), "tracked size is %s" % size_expr, "tracked size is %s, expected %s" % (sz, size_expr))
         for r in f.returns():
             rv = f.show(r.node["a"][0]) if r.node["a"] else None
@@ -338,12 +338,12 @@ def track_untrack(R, fns):
     R.require(len(st) == 1, "track: store to alloc->size not found")
     if add and put and st:
         a = assignment_of(f, st[0])
-        stored = f.show(a["a"][1]) if a else None
-        R.check(tracer_field(f, RU.arg(f, add.node, 0)) == "allocated" and f.show(RU.arg(f, add.node, 1)) == stored == "size", "TRACK", "added==stored==requested", where(f, add),
+        stored = f.show(a["a"][1], alias=True) if a else None
+        R.check(tracer_field(f, RU.arg(f, add.node, 0)) == "allocated" and f.show(RU.arg(f, add.node, 1), alias=True) == stored == "size", "TRACK", "added==stored==requested", where(f, add),
                 "counter += size and record.size = size (the same parameter)", "the amount added (%s) differs from the size stored in the record (%s)" % (f.show(RU.arg(f, add.node, 1)), stored))
         R.check(tracer_field(f, RU.arg(f, put.node, 0)) == "allocs" and argstr(f, put.node, 1, addr=False) == "ptr", "TRACK", "record-keyed-by-pointer", where(f, put), "allocs[ptr] = record")
         rec = RU.arg(f, put.node, 2)
-        R.check(rec is not None and f.show(rec) == f.show(st[0].node["a"][0]), "TRACK", "record-inserted-is-record-filled", where(f, put), "the record inserted is the one whose size was set")
+        R.check(rec is not None and f.show(rec, alias=True) == f.show(st[0].node["a"][0], alias=True), "TRACK", "record-inserted-is-record-filled", where(f, put), "the record inserted is the one whose size was set")
         R.check(once_on_all_paths(f, add) <= {0, 1} and once_on_all_paths(f, put) <= {0, 1}, "TRACK", "at-most-once", "%s()" % f.name, "no path adds or inserts twice")
         # add and put happen together: every path that adds also inserts
         okf, _ = RU.must_follow(f, lambda e: e is add, lambda e: e is put)
@@ -360,7 +360,7 @@ def track_untrack(R, fns):
     if find and sub and rem:
         R.check(tracer_field(f, RU.arg(f, find.node, 0)) == "allocs" and argstr(f, find.node, 1, addr=False) == "ptr", "UNTRACK", "looks-up-pointer", where(f, find), "allocs[ptr] looked up")
         item = argstr(f, find.node, 2)
-        amt = RU.arg(f, sub.node, 1)
+        amt = RU.resolve(f, RU.arg(f, sub.node, 1))
         ok_amt = amt is not None and amt["k"] == "member" and amt["f"] == "size" and amt.get("rec") == "alloc_info"
         src = f.show(amt["a"][0], alias=True) if ok_amt else None
         R.check(ok_amt and src == item + "->value" and tracer_field(f, RU.arg(f, sub.node, 0)) == "allocated", "UNTRACK", "subtracts-stored-size", where(f, sub),
@@ -408,7 +408,7 @@ def locks(R, fns):
     R.require(n >= 8, "only %d table accesses found" % n)
 
 
-def level(R, fns):
+def level(R, fns, P=None):
     n = 0
     requires = {"s_collect_stack_trace"}
     for name, f in sorted(fns.items()):
@@ -419,14 +419,32 @@ def level(R, fns):
             gs = [RU.cmp_norm(f, c, p) for c, p, b in RU.guards(f, e)]
             R.check(any(excludes_none(f, g) for g in gs), "LEVEL", "%s:%s" % (name, e.node["f"]), where(f, e), "guarded by level != NONE",
                     "tracer->%s is touched at tracing level NONE (it is never initialised there)" % e.node["f"])
+    from sa.num import Num, Poly, Limit, entails
+    from sa.awslib import AwsHooks
+    none = P.enums.get("AWS_MEMTRACE_NONE", 0) if P is not None else 0
     for name in ("aws_mem_tracer_bytes", "aws_mem_tracer_count"):
         f = fns[name]
-        for r in f.returns():
-            gs = [RU.cmp_norm(f, c, p) for c, p, b in RU.guards(f, r)]
-            v = r.node["a"][0] if r.node["a"] else None
-            if any(excludes_none(f, g) for g in gs):
-                continue
-            R.check(v is not None and f.is_const(RU.uncast(f, v)) == 0, "LEVEL", "%s:zero-when-off" % name, where(f, r), "returns 0 at level NONE")
+        # decided on the return states (NUM): whatever the shape - early return, single exit with a zero-initialised
+        # result - every state in which the level can be NONE returns 0
+        num = Num(f, P, AwsHooks(), max_paths=2000)
+        rets = [x for b in f.blocks.values() for x in b.elems if x["k"] == "ret"]
+        try:
+            sts = num.states_at({r["id"] for r in rets})
+        except Limit as ex:
+            R.broken(str(ex))
+            continue
+        nst, bad = 0, None
+        for r in rets:
+            for st in sts.get(r["id"], []):
+                lv = [x for k, x in st.env.items() if k.endswith("->level")]
+                subs = [st] if not lv else num.assume_cmp("==", lv[0], Poly.const(none), st.copy())
+                for s2 in subs:
+                    nst += 1
+                    rv = num.val(r["a"][0], s2) if r.get("a") else None
+                    if rv is None or not (entails(s2, rv) and entails(s2, -rv)):
+                        bad = "line %d returns %r" % (r["loc"][0], rv)
+        R.check(nst >= 1 and bad is None, "LEVEL", "%s:zero-when-off" % name, "%s()" % name, "returns 0 at level NONE (%d return states in which the level can be NONE)" % nst,
+                "%s can return a non-zero value at level NONE (%s): the tables it reads are never initialised there" % (name, bad))
     R.require(n >= 12, "only %d guarded tracer field accesses found" % n)
 
 
